@@ -47,6 +47,27 @@ type HttpCase struct {
 	Seed  int64      `json:"seed"`
 }
 
+// httpStyle: how the handler of request i starts its response (derived from the case seed so that the case format and
+// the specification's program record stay as they are).
+func httpStyle(seed int64, i int, p HttpProg) string {
+	switch (seed + 2*int64(i)) % 5 {
+	case 1:
+		if p.Flush {
+			return "flushfirst"
+		}
+	case 3:
+		return "implicit"
+	}
+	return "explicit"
+}
+
+func httpStatus(seed int64, i int, p HttpProg) int {
+	if httpStyle(seed, i, p) == "explicit" {
+		return 200 + i
+	}
+	return 200
+}
+
 type HttpEvent struct {
 	Case      string                   `json:"case,omitempty"`
 	Op        string                   `json:"op"`
@@ -174,7 +195,15 @@ func runHttpCase(c *HttpCase) *HttpResult {
 		case "chunked":
 			w.Header().Set("Transfer-Encoding", "chunked")
 		}
-		w.WriteHeader(200 + i)
+		// which of WriteHeader / Write / Flush comes first is part of the handler program: an explicit WriteHeader, an
+		// implicit one by the first Write (status 200), or a Flush before anything was written (status 200 as well)
+		switch httpStyle(c.Seed, i, p) {
+		case "flushfirst":
+			w.(http.Flusher).Flush()
+		case "implicit":
+		default:
+			w.WriteHeader(200 + i)
+		}
 		// an explicit Flush either after everything was written or in the middle of the body (streaming)
 		midFlush := p.Flush && (c.Seed+int64(i))%2 == 0
 		for off := 0; off < len(body); {
@@ -249,6 +278,7 @@ func runHttpCase(c *HttpCase) *HttpResult {
 	// ---- parse the responses
 	br := bufio.NewReader(bytes.NewReader(stream))
 	responded := map[int]bool{}
+	selfDelim := map[int]bool{} // as a standard parser sees the response: explicit length or (HTTP/1.1) chunked
 	nresp := 0
 	respEnd := []int{}
 	for {
@@ -272,7 +302,8 @@ func runHttpCase(c *HttpCase) *HttpResult {
 				fail("response-twice", fmt.Sprintf("two responses for request %d", i))
 			}
 			responded[i] = true
-			if rsp.StatusCode != 200+i || berr != nil || !bytes.Equal(body, respBody(c.Seed, i, p.Size)) {
+			selfDelim[i] = rsp.ContentLength >= 0 || (rsp.ProtoAtLeast(1, 1) && len(rsp.TransferEncoding) > 0 && rsp.TransferEncoding[0] == "chunked")
+			if rsp.StatusCode != httpStatus(c.Seed, i, p) || berr != nil || !bytes.Equal(body, respBody(c.Seed, i, p.Size)) {
 				fail("response-content/"+p.Resp, fmt.Sprintf("response %d (%s, %d bytes): parsed status %d, %d body bytes, err %v", i, p.Resp, p.Size, rsp.StatusCode, len(body), berr))
 			}
 			if rsp.ProtoMinor != c.Reqs[i-1].Ver-10 {
@@ -299,7 +330,7 @@ func runHttpCase(c *HttpCase) *HttpResult {
 		}
 	}
 	last1 := c.Reqs[due-1]
-	if (last1.Close || last1.Ver == 10 || c.Progs[due-1].Resp == "neither") && !isClosed {
+	if (last1.Close || last1.Ver == 10 || (c.Progs[due-1].Resp == "neither" && !selfDelim[due])) && !isClosed {
 		fail("not-closed", fmt.Sprintf("the connection is still open after request %d which requires closing it", due))
 	}
 	// ---- events for the specification
